@@ -1870,6 +1870,11 @@ type Data struct {
 	mlMu sync.RWMutex // For atomic access of MaxLabel and MaxRepoLabel
 
 	voxelMu sync.Mutex // Only allow voxel-level label mutation ops sequentially.
+
+	// Only allow label-level mutation ops (merge, renumber, cleave, supervoxel split) sequentially: each of them reads
+	// one or more label indices, modifies them and writes them back, and the per-shard index locks only cover single
+	// reads and writes.
+	labelMutMu sync.Mutex
 }
 
 // --- Override of DataService interface ---
